@@ -3,7 +3,7 @@ from facts import walk, callee_of, call_args, loc
 import hirq, anchors, absx, sem, driver
 
 EXPLANATION = ("K1 pairing: every removal of a routing entry in the driver loop (result delivered, search done / receiver gone, scrub, "
-               "abandon) is accompanied on the same control path by the release of the same message ID from the in-use set; K2 the "
+               "abandon) is followed, on every enumerated path of its arm and before the arm is left by any exit (falling out, continue, break, return), by the release of the same message ID from the in-use set - unless the same sender is put back; K2 the "
                "Abandon request's own, never-answered ID is released in its arm; K3 Abandon: request [APPLICATION 16] INTEGER msgid and "
                "LdapOp::Abandon(msgid) carry the same parameter, and the arm drops both routing entries of that ID (which fails the "
                "waiting caller); K4 every routing map has a removal site for each terminal event class (response, scrub, abandon); "
@@ -13,18 +13,6 @@ TRUSTED = ['HashMap/HashSet remove semantics', 'dropping a oneshot::Sender fails
 UNDECIDED = ['quiescence over arbitrary histories (reachability of the running system)', 'operation futures dropped mid-flight (no Drop-based release exists)']
 ASSUMPTIONS = []
 SHARED = [('C12', ('O1.scrub', 'O2.scrub', 'O3.'), 'K7.timeout-releases'), ('C16', ('A2.splices-new-stream',), 'K8.scrub-names-the-running-search')]      # a timed-out operation is one of the ways an operation ends: its expiry must scrub its ID and routing entry, and the scrub arm must release all three
-
-def effective_ctx(L, n):
-    """Control context of a removal; a removal that is the scrutinee of `if let Some(_) = map.remove(k)` only takes effect in the then-branch."""
-    cs = hirq.conditions(L.context(n))
-    ctx = L.context(n)
-    if ctx:
-        anc, role = ctx[-1]
-        if anc['k'] == 'LetExpr' and role == 'init' and hirq.pat_variant(anc['pat']) == 'Some' and len(ctx) >= 2:
-            iff, r2 = ctx[-2]
-            if iff['k'] == 'If' and r2 == 'cond':
-                cs = cs + [('if', iff, 'then')]
-    return [hirq.cond_key(c) for c in cs]
 
 def run(ctx):
     f = ctx.facts
@@ -40,33 +28,39 @@ def run(ctx):
         if isinstance(a, dict):
             for n, c in walk(a['body']):
                 arm_of[id(n)] = role
+    # K1 is a path rule: an arm's path is one way through it from the select! binding to whichever exit it takes - falling out of
+    # the arm, `continue`, `break` (the loop ends: in one-operation mode the connection is handed back and lives on) or `return`.
+    # On every path that takes a routing entry out (and does not put the same sender back under the same key - taken out only to be
+    # used), that message ID is released on the same path, i.e. before the arm is left by that exit.  A release that merely stands
+    # further down in the same branch does not count when a `break` lies between the two.
+    _paths = {}
+    def paths_of(role):
+        if role not in _paths:
+            _paths[role] = [o for o in driver.arm_paths(C, role)[0] if o.kind != 'div']
+        return _paths[role]
+    EXIT = {'val': 'falling out of the arm', 'cont': '`continue`', 'brk': '`break`', 'ret': '`return`', 'loop': 'an inner loop'}
     for u, uc, w in unroutes:
         key = hirq.strip_casts(L.origin(u['args'][0]))
-        uctx = effective_ctx(L, u)
-        ok = False
-        for r, rc in releases:
-            if hirq.strip_casts(L.origin(r['args'][0])) != key:
-                continue
-            rctx = [hirq.cond_key(c) for c in hirq.conditions(L.context(r))]
-            if rctx == uctx[:len(rctx)]:
-                ok = True
-        if not ok and arm_of.get(id(u)) in C.arms and isinstance(C.arms[arm_of.get(id(u))], dict):
-            # the same question on the enumerated paths of the arm: on every path that executes this removal, the entry is put back
-            # (the same sender under the same key - taken out only to be used) or the ID is released
-            role = arm_of[id(u)]
-            pouts = [o for o in driver.arm_paths(C, role)[0] if o.kind != 'div' and any(e[0] == 'call' and e[3] is u for e in o.st.ev)]
+        role = arm_of.get(id(u))
+        ok, how = False, 'outside the select! arms, where its paths are not enumerated'
+        if role in C.arms and isinstance(C.arms[role], dict):
+            pouts = [o for o in paths_of(role) if any(e[0] == 'call' and e[3] is u for e in o.st.ev)]
             def path_ok(o):
-                ev = [e for e in o.st.ev if e[0] == 'call' and e[3] is u][0]
-                k = ev[2][1]
-                rterm = ('call', ev[1], ev[2], u.get('id'))
-                if sem.failed(o, lambda v: v == rterm):
-                    return True         # nothing was registered under the key: nothing was removed
-                if driver.net_registration(C, o, w, k) == 'kept':
-                    return True
-                return any(args[1] == k for i, name, args, node in driver.map_calls(C, o, 'idset', ('remove',)))
-            ok = bool(pouts) and all(path_ok(o) for o in pouts)
-        ctx.add('K1.unroute-implies-release', '%s|%s|%s' % (arm_of.get(id(u), '?'), w, hirq.fmt_origin(key).split('.')[-1] if False else hirq.fmt_origin(key)[-40:]), loc(u), ok,
-                'the routing entry for %s is removed from the %s map without releasing that message ID: it stays reserved forever' % (hirq.fmt_origin(key), w))
+                for ev in [e for e in o.st.ev if e[0] == 'call' and e[3] is u]:
+                    k = ev[2][1]
+                    rterm = ('call', ev[1], ev[2], u.get('id'))
+                    if sem.failed(o, lambda v: v == rterm):
+                        continue            # nothing was registered under the key: nothing was removed
+                    if driver.net_registration(C, o, w, k) == 'kept':
+                        continue
+                    if not any(args[1] == k for i, name, args, node in driver.map_calls(C, o, 'idset', ('remove',))):
+                        return False
+                return True
+            bad = [o for o in pouts if not path_ok(o)]
+            ok = bool(pouts) and not bad
+            how = 'on a path that leaves the arm by %s' % ' / '.join(sorted({EXIT.get(o.kind, o.kind) for o in bad})) if bad else 'on no enumerated path of its arm (the removal was not reached by the analysis)'
+        ctx.add('K1.unroute-implies-release', '%s|%s|%s' % (arm_of.get(id(u), '?'), w, hirq.fmt_origin(key)[-40:]), loc(u), ok,
+                'the routing entry for %s is removed from the %s map %s without releasing that message ID: it stays reserved forever' % (hirq.fmt_origin(key), w, how))
 
     # K2 / K3 abandon arm
     req = C.arms['request']
